@@ -280,7 +280,13 @@ def get_strategy_base():
                         prices.append(float(p))
                         self._c.count('near_band_row')
                         continue
-                prices.append(self._lat(base if x >= pr['wrong_side_p'] else ref_price, sign * dk))
+                px = self._lat(base if x >= pr['wrong_side_p'] else ref_price, sign * dk)
+                if x >= pr['wrong_side_p'] and not ((sign < 0 and px < ref_lo) or (sign > 0 and px > ref_hi)):
+                    # the lattice clamps at one tick: a row that ends up on the wrong side by accident is dropped
+                    continue
+                prices.append(px)
+            if not prices:
+                return None
             seen = set()
             prices = [p for p in prices if not (p in seen or seen.add(p))]
             qtys = self._split(qty_total, len(prices), hook, f'{kind}_q')
@@ -340,7 +346,7 @@ def get_strategy_base():
                 lo = min(min(p for _, p in rows), float(self.price))
                 hi = max(max(p for _, p in rows), float(self.price))
                 for kind in ('sl', 'tp'):
-                    rws = self._exit_rows('go', kind, side, ref, float(qty), allow_odd=(len(rows) == 1), ref_lo=lo, ref_hi=hi)
+                    rws = self._exit_rows('go', kind, side, ref, float(qty), allow_odd=(len(rows) == 1 and (self._plan or {}).get('style') == 'market'), ref_lo=lo, ref_hi=hi)
                     if rws is None:
                         continue
                     if kind == 'tp' and self._decl['sl'] is not None and rws == self._decl['sl']:
